@@ -1061,3 +1061,147 @@ Theorem C08_tdd_level_swap_example :
   /\ NoDup [2; 1; 0] /\ Forall (fun v => v < nlevels tex_swap) [2; 1; 0].
 Proof. exact tex_swap_all. Qed.
 Print Assumptions C08_tdd_level_swap_example.
+
+(** ** ALL histories, ZBDD kind (HISTz, Mgr/HistoryZ.v): reordering inside a history (chain dropped and
+    rebuilt), the frame of every call, "as on a freshly built diagram" *)
+From Coq Require Import Bool List NArith PArith FMapPositive.
+From OxiVerif Require Import DD.Sem DD.Build DD.Apply DD.ConfigApply DD.FamSpec DD.ZbddOps DD.ZbddOpsProofs DD.ZbddBool
+  DD.ZbddBoolProofs DD.ZbddEvalProofs Mgr.LevelSwapZ Mgr.LevelSwapZProofs Mgr.HistoryExamples
+  Mgr.HistoryZ Mgr.HistoryZBase Mgr.HistoryZFam Mgr.HistoryZProofs Mgr.HistoryZThms Mgr.HistoryZSpec Mgr.HistoryZTie
+  Mgr.HistoryZExamples.
+
+(* set_var_order in any state of any history: invariant, same slots, same functions and families, requested relative order *)
+Theorem C08_histz_reorder_keeps :
+  forall (gt : ref -> ref -> bool) (C : Type) (cget : C -> N -> list ref -> list nat -> option ref)
+  (cadd : C -> N -> list ref -> list nat -> ref -> C),
+  zlossy C cget cadd ->
+  forall cempty : C,
+  (forall (k : N) (a : list ref) (m : list nat), cget cempty k a m = None) ->
+  forall cav : C -> C,
+  cav_ok C cget cav ->
+  forall (st : hstate_z C) (order : list nat) (st' : hstate_z C),
+  HInvZ C cget st ->
+  zhop_pre C st (ZHSetVarOrder order) ->
+  hstep_z gt C cget cadd cempty cav st (ZHSetVarOrder order) = Some st' ->
+  HInvZ C cget st' /\
+  nlevels (hz_s C st') = nlevels (hz_s C st) /\
+  s_handles (hz_s C st') = s_handles (hz_s C st) /\
+  (forall (x : N) (e : edge),
+  hget (s_handles (hz_s C st)) x = Some e ->
+  ref_ok (hz_s C st') (eref e) /\
+  (forall a : asg, zbfun_of (hz_s C st') (eref e) a = zbfun_of (hz_s C st) (eref e) a) /\
+  (forall a : asg, vmem (hz_s C st') (eref e) a <-> vmem (hz_s C st) (eref e) a)) /\
+  (forall a b : nat,
+  a < b < length order -> nth (nth a order 0) (s_v2l (hz_s C st')) 0 < nth (nth b order 0) (s_v2l (hz_s C st')) 0).
+Proof. exact histz_reorder_keeps. Qed.
+Print Assumptions C08_histz_reorder_keeps.
+
+(* no call changes a slot other than its destination; the edge keeps its family; its Boolean view gains "new variables false" *)
+Theorem C08_histz_frame :
+  forall (gt : ref -> ref -> bool) (C : Type) (cget : C -> N -> list ref -> list nat -> option ref)
+  (cadd : C -> N -> list ref -> list nat -> ref -> C),
+  zlossy C cget cadd ->
+  forall cempty : C,
+  (forall (k : N) (a : list ref) (m : list nat), cget cempty k a m = None) ->
+  forall cav : C -> C,
+  cav_ok C cget cav ->
+  forall (st : hstate_z C) (o : zhop) (st' : hstate_z C),
+  HInvZ C cget st ->
+  zhop_pre C st o ->
+  hstep_z gt C cget cadd cempty cav st o = Some st' ->
+  forall (x : N) (e : edge),
+  zhdst o <> Some x ->
+  hget (s_handles (hz_s C st)) x = Some e ->
+  hget (s_handles (hz_s C st')) x = Some e /\
+  ref_ok (hz_s C st') (eref e) /\
+  nlevels (hz_s C st) <= nlevels (hz_s C st') /\
+  (forall a : asg, vmem (hz_s C st') (eref e) a <-> vmem (hz_s C st) (eref e) a) /\
+  (forall a : asg,
+  zbfun_of (hz_s C st') (eref e) a =
+  zbfun_of (hz_s C st) (eref e) a && newfalse (nlevels (hz_s C st)) (nlevels (hz_s C st')) a).
+Proof. exact histz_frame_slots. Qed.
+Print Assumptions C08_histz_frame.
+
+(* along whole histories *)
+Theorem C08_histz_slot_stable :
+  forall (gt : ref -> ref -> bool) (C : Type) (cget : C -> N -> list ref -> list nat -> option ref)
+  (cadd : C -> N -> list ref -> list nat -> ref -> C),
+  zlossy C cget cadd ->
+  forall cempty : C,
+  (forall (k : N) (a : list ref) (m : list nat), cget cempty k a m = None) ->
+  forall cav : C -> C,
+  cav_ok C cget cav ->
+  forall (ops : list zhop) (st st' : hstate_z C),
+  HInvZ C cget st ->
+  zhops_pre gt C cget cadd cempty cav st ops ->
+  hrun_z gt C cget cadd cempty cav st ops = Some st' ->
+  forall (x : N) (e : edge),
+  (forall o : zhop, In o ops -> zhdst o <> Some x) ->
+  hget (s_handles (hz_s C st)) x = Some e ->
+  hget (s_handles (hz_s C st')) x = Some e /\
+  ref_ok (hz_s C st') (eref e) /\
+  nlevels (hz_s C st) <= nlevels (hz_s C st') /\
+  (forall a : asg, vmem (hz_s C st') (eref e) a <-> vmem (hz_s C st) (eref e) a) /\
+  (forall a : asg,
+  zbfun_of (hz_s C st') (eref e) a =
+  zbfun_of (hz_s C st) (eref e) a && newfalse (nlevels (hz_s C st)) (nlevels (hz_s C st')) a).
+Proof. exact histz_slot_stable. Qed.
+Print Assumptions C08_histz_slot_stable.
+
+(* a call after an arbitrary history and the same call in a freshly built manager with the same order: same function, same node count *)
+Theorem C08_histz_fresh_equiv :
+  forall (gt1 gt2 : ref -> ref -> bool) (C1 C2 : Type) (cget1 : C1 -> N -> list ref -> list nat -> option ref)
+  (cadd1 : C1 -> N -> list ref -> list nat -> ref -> C1) (cget2 : C2 -> N -> list ref -> list nat -> option ref)
+  (cadd2 : C2 -> N -> list ref -> list nat -> ref -> C2),
+  zlossy C1 cget1 cadd1 ->
+  zlossy C2 cget2 cadd2 ->
+  forall (ce1 : C1) (ce2 : C2),
+  (forall (k : N) (a : list ref) (m : list nat), cget1 ce1 k a m = None) ->
+  (forall (k : N) (a : list ref) (m : list nat), cget2 ce2 k a m = None) ->
+  forall (cav1 : C1 -> C1) (cav2 : C2 -> C2),
+  cav_ok C1 cget1 cav1 ->
+  cav_ok C2 cget2 cav2 ->
+  forall (n1 n2 : nat) (ops1 ops2 : list zhop) (st1 : hstate_z C1) (st2 : hstate_z C2) (o1 o2 : zhop) (d1 d2 : N) (F : bfun),
+  zhops_pre gt1 C1 cget1 cadd1 ce1 cav1 (hinit_z C1 ce1 n1) ops1 ->
+  hrun_z gt1 C1 cget1 cadd1 ce1 cav1 (hinit_z C1 ce1 n1) ops1 = Some st1 ->
+  zhops_pre gt2 C2 cget2 cadd2 ce2 cav2 (hinit_z C2 ce2 n2) ops2 ->
+  hrun_z gt2 C2 cget2 cadd2 ce2 cav2 (hinit_z C2 ce2 n2) ops2 = Some st2 ->
+  s_l2v (hz_s C1 st1) = s_l2v (hz_s C2 st2) ->
+  s_v2l (hz_s C1 st1) = s_v2l (hz_s C2 st2) ->
+  hspec_z C1 st1 o1 d1 F ->
+  hspec_z C2 st2 o2 d2 F ->
+  exists (st1' : hstate_z C1) (st2' : hstate_z C2) (r1 r2 : ref),
+  hstep_z gt1 C1 cget1 cadd1 ce1 cav1 st1 o1 = Some st1' /\
+  hstep_z gt2 C2 cget2 cadd2 ce2 cav2 st2 o2 = Some st2' /\
+  zslot C1 st1' d1 = Some r1 /\
+  zslot C2 st2' d2 = Some r2 /\
+  (forall a : asg, zbfun_of (hz_s C1 st1') r1 a = F a) /\
+  (forall a : asg, zbfun_of (hz_s C2 st2') r2 a = F a) /\
+  count_reach (hz_s C1 st1') (E r1) = count_reach (hz_s C2 st2') (E r2) /\
+  wf_b (hz_s C1 st1') = true /\ wf_b (hz_s C2 st2') = true.
+Proof. exact histz_fresh_equiv. Qed.
+Print Assumptions C08_histz_fresh_equiv.
+
+(* instantiated: 31-call history (cache, swapped operands) vs. fresh 4-variable manager (no cache) *)
+Theorem C08_histz_example_fresh :
+  exists (stA' : hstate_z zacache) (stB' : hstate_z unit) (r1 r2 : ref),
+  hstep_z zgtA zacache zac_get zac_add nil zcavA exz_stA (ZHSet ZUnion 30 5 6) = Some stA' /\
+  hstep_z zgtB unit znc_get znc_add tt zcavB exz_stB (ZHSet ZUnion 9 6 8) = Some stB' /\
+  zslot zacache stA' 30 = Some r1 /\
+  zslot unit stB' 9 = Some r2 /\
+  (forall a : asg, zbfun_of (hz_s zacache stA') r1 a = zop_s ZUnion zfA5 zfA6 a) /\
+  (forall a : asg, zbfun_of (hz_s unit stB') r2 a = zop_s ZUnion zfA5 zfA6 a) /\
+  count_reach (hz_s zacache stA') (E r1) = count_reach (hz_s unit stB') (E r2) /\
+  wf_b (hz_s zacache stA') = true /\ wf_b (hz_s unit stB') = true.
+Proof. exact exz_fresh_equiv. Qed.
+Print Assumptions C08_histz_example_fresh.
+
+Theorem C08_histz_example_state :
+  PositiveMap.cardinal (s_nodes (hz_s zacache exz_stA)) = 39 /\
+  s_l2v (hz_s zacache exz_stA) = 2 :: 0 :: 1 :: 3 :: nil /\
+  s_v2l (hz_s zacache exz_stA) = 1 :: 2 :: 0 :: 3 :: nil /\
+  length (s_handles (hz_s zacache exz_stA)) = 25 /\
+  wf_b (hz_s zacache exz_stA) = true /\ zbdd_ok_b (hz_s zacache exz_stA) = true /\ zchain_ok_b (hz_s zacache exz_stA) = true.
+Proof. exact exz_stA_shape. Qed.
+Print Assumptions C08_histz_example_state.
+
